@@ -49,8 +49,16 @@ def run_shard(shard, tier, seed, wd, res):
     def miller_fe(pairs):
         items = []
         for p, q_ in pairs:
-            items += [p[1], q_[1]]
-        f = s.op("miller", V.lst(items))
+            pp, qp = p[1], q_[1]
+            # now and then the prepared element is one that was written over another one in place (Clone::clone_from)
+            if rng.random() < 0.08:
+                qp = s.op("prepare2_into", rng.choice(pool2 + [id2, id2])[1], qp)
+            if rng.random() < 0.04:
+                pp = s.op("prepare1_into", rng.choice(pool1 + [id1])[1], pp)
+            items += [pp, qp]
+        # the generic entry point takes any iterator over the pairs: slice, reference to Vec, filter, iterators with an
+        # uninformative size_hint, chain, VecDeque, from_fn, skip_while+take
+        f = s.op("miller", V.lst(items), V.n(rng.randrange(9)))
         s.op("final_exp", f)
 
     nlists = 8 if tier == "quick" else 16
@@ -132,6 +140,13 @@ class _Shim:
         self.args, self.srcs = [val], [src]
 
 
+def _prep_origin(ctx, r):
+    """the prepare record a prepared value stems from (through in-place overwrites of other prepared values)"""
+    while r.op in ("prepare1_into", "prepare2_into"):
+        r = ctx.recs[r.srcs[1]]
+    return r
+
+
 def judge(ctx, rec, res):
     op = rec.op
     if op in ("prepare1", "prepare2", "prepare1_from", "prepare2_from"):
@@ -140,7 +155,15 @@ def judge(ctx, rec, res):
             return "a prepared element"
         want = spec.pt(rec.args[0])[1] is None
         return None if rec.outs[0][1] == want else "is_zero() == %s" % want
+    if op in ("prepare1_into", "prepare2_into"):
+        res.evals += 1
+        if rec.status != "ok":
+            return "a prepared element"
+        want = spec.pt(_prep_origin(ctx, rec).args[0])[1] is None
+        res.classes[(op, "slot-id" if ctx.recs[rec.srcs[0]].outs[0][1] else "slot-point", "src-id" if want else "src-point", ctx.build)] += 1
+        return None if rec.outs[0][1] == want else "is_zero() == %s" % want
     if op == "miller":
+        res.classes[("miller", "iterator kind %d" % (rec.args[1][1] if len(rec.args) > 1 else 0), "n=%d" % min(len(rec.args[0][1]) // 2, 20), rec.status, ctx.build)] += 1
         if rec.status == "panic":
             res.evals += 1
             return "a Miller-loop value (no panic)"
@@ -158,8 +181,8 @@ def judge(ctx, rec, res):
         srcs = m.srcs[0]
         a1, a2 = [], []
         for j in range(0, len(items), 2):
-            p1 = ctx.recs[srcs[j]]
-            p2 = ctx.recs[srcs[j + 1]]
+            p1 = _prep_origin(ctx, ctx.recs[srcs[j]])
+            p2 = _prep_origin(ctx, ctx.recs[srcs[j + 1]])
             a1.append((p1, 0))
             a2.append((p2, 0))
         n = len(items) // 2
